@@ -103,8 +103,8 @@ def plan(tier):
         for (l, r) in (pairs_t if thorough else pairs_q):
             L, R = T(l), T(r)
             bits = max(L.bits, R.bits)
-            if bits >= 16 and not thorough and mode != 'native':
-                continue
+            if bits >= 16 and not thorough and mode != 'native' and (l, r) != ('i8', 'i16'):
+                continue        # quick: 8-bit pairs, plus one mixed-width pair (int8_t / int16_t: seconds per mode)
             if bits >= 32 and L.signed and mode in ('tie_pos', 'neg_inf'):
                 continue        # measured: no SAT answer in 1500 s (32-bit divider against the 70-bit spec multiplier, sign case split) -- not claimed
             tag = '%s_%s_%s' % (mode, l, r)
